@@ -46,7 +46,7 @@ class StreamRun(Job):
     max_seconds = 1200
 
     def __init__(self, frontend, n, windows, axes=("z", "lat", "lon"), streams=1, tests=("probe_test",), sorted_times=None,
-                 canary=None, prop="C05", offdim=None):
+                 canary=None, prop="C05", offdim=None, wbound="timestamp"):
         self.frontend, self.n, self.windows, self.axes, self.streams, self.tests = frontend, n, tuple(windows), tuple(axes), streams, tuple(tests)
         self.sorted_times = (frontend == "xarray") if sorted_times is None else sorted_times
         self.canary = canary
@@ -54,9 +54,14 @@ class StreamRun(Job):
         # xarray only: an extra variable `u` on another dimension (no time coordinate), configured first / last in every context;
         # nothing is claimed about `u` itself (it has no times to window), only that the time-series streams are unaffected
         self.offdim = offdim
+        # how a window bound is written in the configuration: pandas Timestamp, ISO-8601 text (what YAML/JSON text gives),
+        # numpy.datetime64 or datetime.datetime.  The symbolic run carries the same symbolic instant in every case (the library
+        # only compares it with the time axis); the type matters on the real stack, where every witness / probe is replayed
+        self.wbound = wbound
         self.name = (f"stream[{frontend}] n={n} windows={'+'.join(windows)} axes={','.join(axes) or '-'} streams={streams} "
                      f"tests={'+'.join(tests)}{' sorted' if self.sorted_times else ''}"
-                     f"{' +variable-on-another-dimension-' + offdim if offdim else ''}") + (f" CANARY={canary}" if canary else "")
+                     f"{' +variable-on-another-dimension-' + offdim if offdim else ''}"
+                     f"{' window-bounds-as-' + wbound if wbound != 'timestamp' else ''}") + (f" CANARY={canary}" if canary else "")
         if canary:
             self.expect_canary_sat = True
             self.validate_witnesses = False
@@ -160,7 +165,7 @@ class StreamRun(Job):
         raise ValueError(fe)
 
     def invoke(self, mods, S, K):
-        K = _StreamKit(K)
+        K = _StreamKit(K, wbound=self.wbound)
         q = mods.qartod
         log = install_probe(q)
         try:
@@ -395,9 +400,10 @@ def _to_array(v):
 
 
 class _StreamKit:
-    def __init__(self, K):
+    def __init__(self, K, wbound="timestamp"):
         self.K = K
         self.sym = K.sym
+        self.wbound = wbound
 
     def __getattr__(self, name):
         return getattr(self.K, name)
@@ -406,6 +412,13 @@ class _StreamKit:
         if self.K.sym:
             return v
         import pandas as pd
+        w = self.__dict__.get("wbound", "timestamp")
+        if w == "iso":
+            return pd.Timestamp(v).isoformat()
+        if w == "datetime64":
+            return np.datetime64(pd.Timestamp(v).to_datetime64(), "ns")
+        if w == "datetime":
+            return pd.Timestamp(v).to_pydatetime()
         return pd.Timestamp(v)
 
     def dataframe(self, data, index=None):
@@ -443,6 +456,9 @@ def jobs(tier):
         out.append(StreamRun(fe, n, ("start",), axes=("z",), tests=("probe_test", "spike_test")))
         if fe != "qcconfig":
             out.append(StreamRun(fe, 3, ("closed",), axes=(), tests=("rate_of_change_test",)))
+        if fe != "qcconfig":
+            for wb in ("iso", "datetime64", "datetime"):
+                out.append(StreamRun(fe, n, ("closed",), axes=(), wbound=wb))
         if fe == "xarray":
             out.append(StreamRun(fe, n, ("closed",), axes=("z",), offdim="first"))
             out.append(StreamRun(fe, n, ("start", "end"), axes=(), offdim="last"))
